@@ -35,6 +35,6 @@ def h_params_newCommand : Nat := 0x24a618734f894039
 def h_params_NewExecutionGraphForRetry : Nat := 0x859d7c2a46d2316d
 
 /-- hash of the normalised skeleton of setupExec (internal/dag/scheduler/node.go) -/
-def h_params_nodeSetupExec : Nat := 0xcb50177850a7c84a
+def h_params_nodeSetupExec : Nat := 0xcfa69c496e6e333d
 
 end BdModel.Canon.Params
